@@ -7,7 +7,12 @@ the compiled bytecode must equal the baseline.  Family "many bodies x shared fre
 fresh_*): hundreds of bodies, groups of k consecutive bodies first-use the same n fresh local names / symbol literals in
 rotated order; every run of such a program happens in a FRESH child process of the harness (the symbol table is
 process-global, a name is fresh only once per process), (limit, GOMAXPROCS) in {(100, default), (16, default), (1, default), (100, 4)} (thorough: + (16,4), (1,4), (100,2)) x repetitions
-against the limit-1 / GOMAXPROCS-1 child.  Stream c11.race (thorough): the same harness built with
+against the limit-1 / GOMAXPROCS-1 child.  Family "post-passes over completion-ordered results" (ids k<i>, corpus files
+postpass_*; generator harness/cmd/c11/postpass.go): constants initialised by calls of different root methods with
+overlapping call graphs, methods reading those constants or not, bodies of 0..thousands of statements, holders module /
+two modules with same-named methods / top level / class singleton, classes with instance variables and own/inherited
+init, macros; fresh children at (100, default) (2, default) (3, 2) (+ thorough) with run, then the in-process
+check+compile-only lattice limit {2,4,16,100,1} x GOMAXPROCS {1,2,16}.  Stream c11.race (thorough): the same harness built with
 -race; any data-race report whose stacks touch elk packages gates (key = file:line of the two accesses).
 """
 import os
@@ -19,6 +24,7 @@ RACE = "c11.race"
 
 
 def run_harness(ctx, exe, n, reps, seed, tag, corpus_list, env_extra=None, timeout=6000, extra="", fam=0):
+    # fam = number of generated family programs (shared-fresh-names + post-pass) appended after the g-programs
     """runs the harness, restarting after a crash. -> (lines {id: (desc, observed)}, crashes [(id, stderr)], all stderr)"""
     dump = os.path.join(ctx.workdir, tag + "_dump")
     lines, crashes, errs = {}, [], []
@@ -83,8 +89,10 @@ def report(ctx, stream, lines, crashes, dump):
             m = re.match(r"DIFF (\S+) (\S+) :: (.*)", obs)
             setting, kind, detail = (m.group(1), m.group(2), m.group(3)) if m else ("?", "?", obs)
             src = os.path.join(dump, cid + ".elk")
-            ctx.fail("sched:%s-differs-from-sequential-run" % kind,
-                     "program %s (%s) at %s: %s differs from the limit-1 run: %s" % (cid, desc, setting, kind, detail[:600]),
+            # a crash of a fresh child (at any setting, the limit-1 baseline included) has the key of its panic message
+            key = ("sched:" + kind) if kind.startswith("crash:") else "sched:%s-differs-from-sequential-run" % kind
+            ctx.fail(key,
+                     "program %s (%s) at %s: %s differs from the limit-1 run: %s" % (cid, desc[:300], setting, kind, detail[:600]),
                      stream=stream, case=(open(src).read() if os.path.exists(src) else cid), impl=detail[:1500], model="equal to the limit-1 run",
                      oracle="same diagnostics and same behaviour of the compiled program at every degree of parallelism")
     for pid_, err, rc in crashes:
@@ -144,27 +152,67 @@ def run(ctx):
         "the limit-1 child. This is an implementation-level schedule-sampling oracle, not an enumeration: a window that needs a "
         "rarer interleaving than ~300 bodies x ~20 shared names provoke can be missed. The Go scheduler is perturbed, not "
         "controlled: there is no hook inside concurrent.Foreach, so interleavings are sampled, not enumerated. Data-race freedom in "
-        "the Go memory model is outside the Gallina model; the thorough tier runs the same stream under the race detector. Macro "
-        "bodies (checkMacros uses the same Foreach) are not generated. The native Go back end's output under different schedules is "
-        "not compared here (C09 found a schedule-dependent defect there).")
+        "the Go memory model is outside the Gallina model; the thorough tier runs the same stream under the race detector. "
+        "POST-PASSES: the confluence theorems speak about the tasks; after concurrent.Foreach the checker runs passes over what the "
+        "tasks left behind, one of them over a COMPLETION-ORDERED list (c.methodCache.Slice: methods called in constant "
+        "initialisers, pushed when their body check completes; consumed by checkMethodsInConstants). Model/C11_PostPass.v models "
+        "that pass as found; proved: a post-pass that handles every element of the list on its own (hence any function of the "
+        "multiset of task results) reports the same multiset for every permutation (C11_postpass_order_independent), the "
+        "constant-cycle pass as found and a variant with a fresh visited set per root are of that shape "
+        "(C11_constcycle_pass_order_independent, C11_constcycle_pass_perroot_visited), composed with confluence: same multiset "
+        "after any two interleavings (C11_postpass_schedule_independent); C11_postpass_shared_state_refuted: with ONE visited set "
+        "shared by all roots two completion orders of the same roots report different diagnostics (refutes the shape, not the code "
+        "as found). That the Go pass IS the modelled one is tested, not proved: program family 'post-passes over completion-ordered "
+        "results' (constants initialised by different root methods with overlapping call graphs, methods reading those constants, "
+        "bodies of 0..thousands of statements to force completion orders different from definition order, see the stream rule) - an "
+        "implementation-level oracle (same sorted diagnostics / verdict / output as the limit-1 run), no extracted model is run. The "
+        "other consumers of task results after Foreach were enumerated (grep of concurrent.Slice / Foreach users): optimiseCalls "
+        "(callsToOptimise.Slice, completion order; per call site -> two modules with same-named methods + output comparison), "
+        "checkClassesWithIvars (reads init.InitialisedInstanceVariables written by the init task; classes with own/inherited init of "
+        "different sizes), compileMethodsWithinModule (definition order; output comparison), checkMacros' own Foreach (macros with "
+        "long/short bodies expanded in method bodies - macro bodies ARE generated now). FINDING on the unchanged tree (known finding "
+        "sched:crash:invalid-compiled-macro-body-nil-for, C11_compile_flag_refuted / _partial): a body is compiled only if "
+        "Errors.IsFailure() is false when its check completes, so whether a correct macro is compiled depends on whether another "
+        "macro's failure was appended first; expandMacro inside overload resolution then panics on the nil body (limit 1: always; "
+        "limit 100: sometimes). Recursive methods called from a constant initialiser make checkMethodInConstant overflow the stack "
+        "at EVERY schedule - a defect, but not a schedule dependence; such call graphs are not generated. The native Go back end's "
+        "output under different schedules is not compared here (C09 found a schedule-dependent defect there).")
     ctx.trusted_base += [
         "Go runtime scheduler / GOMAXPROCS / runtime.Gosched as the only source of interleavings (sampled, not enumerated)",
         "Go race detector (thorough tier) for the data-race clause",
         "harness/cmd/c11 program generator; the limit-1, GOMAXPROCS-1 run as the reference",
         "fresh-process runs: os/exec of the harness binary itself, outcome passed back as one quoted line",
+        "post-pass family: no extracted model is run on it (oracle = equality with the limit-1 run); Model/C11_PostPass.v is tied to types/checker/method.go checkMethodsInConstants by reading only",
     ]
     ctx.run_proof_gate()
     h = vlib.build_harness("c11")
     corpus = [os.path.join(vlib.ROOT, l.strip()) for l in open(os.path.join(vlib.ROOT, "corpus", "C11.sched.txt")) if l.strip() and not l.startswith("#")]
     n, reps = ctx.n(40, 500), ctx.n(1, 2)
     fam, freps = ctx.n(4, 12), ctx.n(1, 2)
-    lines, crashes, err, dump = run_harness(ctx, h, n, reps, ctx.sseed(SCHED), "sched", corpus, extra=",fam=%d,freps=%d" % (fam, freps), fam=fam)
+    pp, ppreps, ppin = ctx.n(6, 40), ctx.n(1, 2), ctx.n(1, 3)
+    lines, crashes, err, dump = run_harness(ctx, h, n, reps, ctx.sseed(SCHED), "sched", corpus,
+                                            extra=",fam=%d,freps=%d,pp=%d,ppreps=%d,ppin=%d" % (fam, freps, pp, ppreps, ppin), fam=fam + pp)
     evaluations, dist = report(ctx, SCHED, lines, crashes, dump)
-    if len(lines) + len(crashes) < n + len(corpus) + fam:
-        ctx.broke("correspondence %s: only %d of %d programs were evaluated" % (SCHED, len(lines), n + len(corpus) + fam), err[-2000:])
+    if len(lines) + len(crashes) < n + len(corpus) + fam + pp:
+        ctx.broke("correspondence %s: only %d of %d programs were evaluated" % (SCHED, len(lines), n + len(corpus) + fam + pp), err[-2000:])
     nfam = len([k for k, v in lines.items() if k.startswith("f") or v[0].startswith("corpus fresh_")])
     if nfam < fam:
         ctx.broke("correspondence %s: only %d of %d shared-fresh-names programs were evaluated" % (SCHED, nfam, fam), err[-2000:])
+    pplines = {k: v for k, v in lines.items() if k.startswith("k") or v[0].startswith("corpus postpass_")}
+    npp = len(pplines)
+    if npp < pp:
+        ctx.broke("correspondence %s: only %d of %d post-pass programs were evaluated" % (SCHED, npp, pp), err[-2000:])
+    # how much of the class the post-pass programs reached (measured from the descriptors / outcomes)
+    pp_cov = {"programs": npp,
+              "with_const_reads": len([1 for v in pplines.values() if re.search(r"const_reads=[1-9]", v[0])]),
+              "rejected": len([1 for v in pplines.values() if " rejected " in v[1]]),
+              "accepted_and_run": len([1 for v in pplines.values() if " accepted " in v[1]]),
+              "with_ivar_classes": len([1 for v in pplines.values() if re.search(r"ivar_classes=[1-9]", v[0])]),
+              "with_macros": len([1 for v in pplines.values() if re.search(r"macros=[1-9]", v[0])]),
+              "holders": sorted(set(m.group(1) for v in pplines.values() for m in [re.search(r"holder=(\w+)", v[0])] if m))}
+    if pp >= 6 and not any(v[1].startswith("DIFF") for v in pplines.values()):
+        if pp_cov["with_const_reads"] == 0 or pp_cov["rejected"] == 0 or pp_cov["accepted_and_run"] == 0:
+            ctx.broke("correspondence %s: the post-pass family no longer reaches its class" % SCHED, str(pp_cov))
     ctx.stream(SCHED, evaluations, len(lines),
                "seeded programs of 4-14 top-level methods calling each other along a random acyclic order (forward and backward "
                "references), bodies with locals, closures, loops, early returns, symbol literals; every second program has type "
@@ -175,15 +223,28 @@ def run(ctx):
                "names and/or symbol literals in rotated order plus 0-6 names of their own, every fourth program with injected "
                "type errors; Int bodies are summed, symbol bodies of one group compared with == at run time; each evaluation of "
                "a family program (and of the corpus files fresh_*) is a FRESH child process ((limit, GOMAXPROCS) in (100,default) (16,default) (1,default) (100,4), "
-               "thorough also (16,4) (1,4) (100,2), x repetitions, compared with the limit-1 GOMAXPROCS-1 child); non-trivial = distinct program",
-               [{"program": k, "descriptor": v[0], "observed": v[1][:120]} for k, v in (list(lines.items())[:3] + [kv for kv in lines.items() if kv[0].startswith("f")][:2])],
+               "thorough also (16,4) (1,4) (100,2), x repetitions, compared with the limit-1 GOMAXPROCS-1 child); PLUS the family "
+               "'post-passes over completion-ordered results' (ids k<i>, corpus postpass_*): 2-5 constants initialised by calls "
+               "of 1-2 root methods each (roots shared between constants, initialisers reading an earlier constant), 3-9 "
+               "methods in a random acyclic call graph with a hub helper most methods call and roots calling roots, methods "
+               "reading method-initialised constants (circular when reachable from a root of that constant) and/or literal "
+               "base constants, 0 / tens / hundreds / thousands of filler statements per body, holders module / two modules "
+               "with same-named methods / top level / class singleton, 0-3 classes with non-nilable instance variables and an "
+               "own or inherited init that sets all or not all of them, 0-3 macros (long/short bodies, in a module or not) "
+               "expanded inside method bodies, one program in seven with injected type errors (macro bodies included); fresh "
+               "children with run at (100,default) (2,default) (3,2), thorough also (1,default) (16,default) (2,2) (100,4) "
+               "(4,1), then the in-process check+compile-only lattice limit {2,4,16,100,1} x GOMAXPROCS {1,2,16} x "
+               "repetitions against the in-process limit-1 run; non-trivial = distinct program",
+               [{"program": k, "descriptor": v[0], "observed": v[1][:120]} for k, v in (list(lines.items())[:3] + [kv for kv in lines.items() if kv[0].startswith("f")][:2] + [kv for kv in lines.items() if kv[0].startswith("k")][:2])],
                dict(dist, programs=len(lines), limits=[1, 2, 4, 16, 100], gomaxprocs=[1, 2, 16], repetitions=reps,
-                    fresh_process_programs=nfam, fresh_settings=(["100/default", "16/default", "1/default", "100/4"] + ([] if ctx.quick() else ["16/4", "1/4", "100/2"])), fresh_repetitions=freps))
+                    fresh_process_programs=nfam, fresh_settings=(["100/default", "16/default", "1/default", "100/4"] + ([] if ctx.quick() else ["16/4", "1/4", "100/2"])), fresh_repetitions=freps, postpass_family=pp_cov,
+                    postpass_fresh_settings=(["100/default", "2/default", "3/2"] + ([] if ctx.quick() else ["1/default", "16/default", "2/2", "100/4", "4/1"])),
+                    postpass_inprocess_repetitions=ppin))
     if not ctx.quick():
         hr = vlib.build_harness("c11", race=True)
         nr = 60
         lines_r, crashes_r, err_r, dump_r = run_harness(ctx, hr, nr, 1, ctx.sseed(RACE), "race", corpus,
-                                                       env_extra={"GORACE": "halt_on_error=0 exitcode=0 history_size=3"}, timeout=12000, extra=",norun=1,fam=2,freps=1", fam=2)
+                                                       env_extra={"GORACE": "halt_on_error=0 exitcode=0 history_size=3"}, timeout=12000, extra=",norun=1,fam=2,freps=1,pp=4,ppreps=1,ppin=1", fam=6)
         ev_r, dist_r = report(ctx, RACE, lines_r, [c for c in crashes_r if "DATA RACE" not in c[1]], dump_r)
         reps_ = race_reports(err_r)
         seen = {}
